@@ -487,13 +487,24 @@ func (m *Muxer) receiver() {
 			// Handle requests for new tubes. We ignore errors when making a tube
 			// because failing to create one tube should not shut down all tubes.
 			if initFrame.flags.REQ {
+				// The lookup above released the lock: a local Create call may
+				// have taken this identifier in the meantime. Replacing its map
+				// entry would orphan that tube (Stop never closes it).
 				if initFrame.flags.REL {
 					m.m.Lock()
-					tube, _ = m.makeReliableTubeWithID(initFrame.tubeType, initFrame.tubeID, false)
+					if t, exists := m.reliableTubes[initFrame.tubeID]; exists {
+						tube = t
+					} else {
+						tube, _ = m.makeReliableTubeWithID(initFrame.tubeType, initFrame.tubeID, false)
+					}
 					m.m.Unlock()
 				} else {
 					m.m.Lock()
-					tube, _ = m.makeUnreliableTubeWithID(initFrame.tubeType, initFrame.tubeID, false)
+					if t, exists := m.unreliableTubes[initFrame.tubeID]; exists {
+						tube = t
+					} else {
+						tube, _ = m.makeUnreliableTubeWithID(initFrame.tubeType, initFrame.tubeID, false)
+					}
 					m.m.Unlock()
 				}
 			}
